@@ -74,6 +74,10 @@ def subtree(rng, gate, trace_dir):
     if gate == "scheduler":
         on = gate_cfg(rng, "scheduler", True)
         on["scheduler"]["budgets"].update({"t1_pops": rng.choice([0, 1]), "t2_k": rng.choice([0, 1]), "t3_ops": rng.choice([0, 1])})
+        if rng.random() < 0.6:
+            on["scheduler"]["budgets"]["ops_reflection"] = rng.choice([0, 1, 5])
+        if rng.random() < 0.3:
+            on["scheduler"]["budgets"]["time_ms_reflection"] = rng.choice([1, 6000])
         on["scheduler"]["quantum_ms"] = rng.choice([1, 20])
         on["scheduler"]["budgets"]["wall_ms"] = rng.choice([20, 200])
         off = copy.deepcopy(on)
@@ -120,9 +124,12 @@ def gen_case(rng, gate):
     base["t2"]["k_retrieval"] = max(4, base["t2"]["k_retrieval"])
     base["t2"]["owner_scope"] = "any"
     # other gates may be on in the base (inertness must hold for all validated bases)
-    for g2 in ("gel", "hybrid"):
-        if rng.random() < 0.3 and g2 != gate:
-            base = merge(base, gate_cfg(rng, g2, True))
+    for g2 in ("gel", "hybrid", "reflection"):
+        if rng.random() < (0.5 if (g2 == "reflection" and gate == "scheduler") else 0.3) and g2 != gate:
+            sub = gate_cfg(rng, g2, True)
+            if g2 == "reflection":
+                sub.pop("scheduler", None)  # budgets stay at their defaults in the base
+            base = merge(base, sub)
     turns = gen_turns(rng, world, n=(2, 4), agents=("A", "B"), plans=False)
     for t in turns:
         nd = rng.choice([1, 2, 3])
@@ -146,6 +153,8 @@ def run_cfg(cfg, case, trace_dir, sess):
         return None
     cwd0 = os.getcwd()
     with env:
+        from clematis.memory.index import InMemoryIndex
+        env.state["memory_index"] = InMemoryIndex()  # where reflection writes; part of the state fingerprint
         os.chdir(env.base)  # relative artefact paths (./logs, ./.data) land inside the private directory
         try:
             fps = []
@@ -198,11 +207,17 @@ def check_case(case, sess: Session):
                 mech = "perf-master-off:perf.parallel.t2-reaches-T2-shard-fan-out(TypeError)"
             elif ba["excs"] != bb["excs"]:
                 mech = f"{gate}:exception-only-with-subtree"
+            elif gate == "scheduler" and paths and all(p_.startswith("t3_reflection.jsonl:") for p_ in paths) and \
+                    any(k in (off_sub["scheduler"].get("budgets") or {}) for k in ("ops_reflection", "time_ms_reflection")):
+                mech = "scheduler-off:reflection-budgets-under-scheduler.budgets-take-effect"
             sess.violation(mech, tcase, {"paths": paths[:8], "diffs": diff_bundles(ba, bb)[:3], "tb": (ta or [""])[0][-200:]})
         elif fa != fb:
             idx = next(i for i, (x, y) in enumerate(zip(fa, fb)) if x != y)
             keys = [k for k in fa[idx] if fa[idx].get(k) != fb[idx].get(k)]
-            sess.violation(f"{gate}:gate-off-subtree-changes-state", tcase, {"turn": idx, "fields": keys})
+            mech = f"{gate}:gate-off-subtree-changes-state"
+            if gate == "scheduler" and set(keys) <= {"mem2"} and any(k in (off_sub["scheduler"].get("budgets") or {}) for k in ("ops_reflection", "time_ms_reflection")):
+                mech = "scheduler-off:reflection-budgets-under-scheduler.budgets-take-effect"
+            sess.violation(mech, tcase, {"turn": idx, "fields": keys})
         forbidden = list(FORBIDDEN[gate])
         if gate == "quality":
             # shadow tracing is a documented feature with its own triple gate (perf.enabled && perf.metrics.report_memory &&
